@@ -145,3 +145,11 @@ func writeResults(out string, res []Result) error {
 func fail(clause, sig, what string, replay interface{}) Result {
 	return Result{OK: false, Clause: clause, Sig: sig, What: what, Replay: replay}
 }
+
+func mustJSON(v interface{}) []byte {
+	b, err := json.Marshal(v)
+	if err != nil {
+		panic(err)
+	}
+	return b
+}
